@@ -71,7 +71,7 @@ def pGetRes : P (Option V) := do
   | "err" => pure none
   | _ => failure
 
-def checkBlock : P (Option String × List (Option V)) := do
+def checkBlock : P (Option String × List (Option V) × List (Option V)) := do
   let at_ ← tok
   if at_ != "@" then failure
   let rs ← c18Paths.mapM fun _ => do let t ← pOptV; let g ← pGetRes; pure (t, g)
@@ -85,19 +85,20 @@ def checkBlock : P (Option String × List (Option V)) := do
     | _, _ => true
   -- law 2: roots are exactly the names that resolve
   let bad2 := (c18Names.zip (rs.take 2)).any fun (k, (t, _)) => (roots.contains (hexOfStr k)) != t.isSome
-  pure (if bad1 then some "get-tryget-agree" else if bad2 then some "roots-exact" else none, ctrs)
+  pure (if bad1 then some "get-tryget-agree" else if bad2 then some "roots-exact" else none, ctrs, (rs.take 2).map (·.1))
 
-/-- all blocks: the first violated state-local law, and the counters seen in every block -/
-partial def checkBlocks : P (Option String × List (List (Option V))) := do
+/-- all blocks: the first violated state-local law, the counters and the values of the bare names
+seen in every block -/
+partial def checkBlocks : P (Option String × List (List (Option V)) × List (List (Option V))) := do
   match (← get) with
-  | [] => pure (none, [])
+  | [] => pure (none, [], [])
   | _ => do
-    let (l, c) ← checkBlock
+    let (l, c, n) ← checkBlock
     match l with
-    | some l => pure (some l, [c])
+    | some l => pure (some l, [c], [n])
     | none => do
-      let (l', cs) ← checkBlocks
-      pure (l', c :: cs)
+      let (l', cs, ns) ← checkBlocks
+      pure (l', c :: cs, n :: ns)
 
 /-- law 3, across the whole history: counters live in ONE place shared by all layers — after
 `set_index k v` every layer, at any depth and on either side of a sandboxed layer, reads `v` for `k`
@@ -121,6 +122,41 @@ def sameCtr (a b : Option V) : Bool :=
 def countersShared (ops : List SOp) (seen : List (List (Option V))) : Bool :=
   (seen.zip (specCounters ops)).all fun (a, b) => a.length == b.length && (a.zip b).all fun (x, y) => sameCtr x y
 
+/-- law 4, across the whole history: **an assignment is seen.**  Right after `set_global k v`, made
+from the top of the stack, the bare name `k` read from that same place is `v` itself (same kind, same
+contents) — unless a plain frame between the top and the receiving global layer binds `k` (it
+shadows) or a sandboxed frame lies in between (it hides what is below); those cases are left to the
+model comparison.  Open frames are tracked from the operations alone. -/
+def assignSeen (ops : List SOp) (names : List (List (Option V))) : Bool :=
+  -- frames, top first: `some keys` = plain frame binding `keys`; `none` = global layer; sandbox = barrier
+  let rec go (frames : List (Option (Option (List Str)))) (i : Nat) : List SOp → Bool
+    | [] => true
+    | op :: r =>
+      let ok : Bool :=
+        match op with
+        | .setGlobal k v =>
+          let rec reach : List (Option (Option (List Str))) → Option Bool   -- some true = expect, some false = skip
+            | [] => some true                                  -- the base runtime's own global layer
+            | none :: _ => some false                          -- sandboxed frame: skip
+            | some none :: _ => some true                      -- a global layer
+            | some (some keys) :: rest => if keys.contains k then some false else reach rest
+          match reach frames with
+          | some true =>
+            (match c18Names.idxOf? k, names[i + 1]? with
+             | some j, some row => (match row[j]? with | some (some x) => x.same v | _ => false)
+             | _, _ => true)
+          | _ => true
+        | _ => true
+      let frames' : List (Option (Option (List Str))) :=
+        match op with
+        | .plain d => some (some (d.map (·.1))) :: frames
+        | .sandbox _ => none :: frames
+        | .global => some none :: frames
+        | .pop => frames.tail
+        | _ => frames
+      ok && go frames' (i + 1) r
+  go [] 0 ops
+
 def stackOp (args : List String) : String :=
   let p : P (String × Obj × List SOp) := do
     let kind ← tok; let base ← pObj; let ops ← many pSOp
@@ -131,10 +167,11 @@ def stackOp (args : List String) : String :=
   | some ((kind, base, ops), obs) =>
     if obs == ["PANIC"] then "specfail " ++ kind ++ " law=no-panic" else
     match run checkBlocks obs with
-    | some ((some law, _), _) => "specfail " ++ kind ++ " law=" ++ law
+    | some ((some law, _, _), _) => "specfail " ++ kind ++ " law=" ++ law
     | none => "bad-op stack-observation"
-    | some ((none, seen), _) =>
+    | some ((none, seen, names), _) =>
       if !countersShared ops seen then "specfail " ++ kind ++ " law=counters-shared-by-all-layers" else
+      if !assignSeen ops names then "specfail " ++ kind ++ " law=an-assignment-is-seen-as-the-value-assigned" else
       let m := simulate (Rt.build base).layers ops
       if m == obs then "ok " ++ kind
       else "diff " ++ kind ++ " model=" ++ " ".intercalate m
